@@ -155,8 +155,8 @@ def parse_assumptions(out):
             closed += 1
         if l.strip() == "Axioms:":
             i += 1
-            while i < len(lines) and lines[i].strip() and not lines[i].startswith("Closed") and lines[i].strip() != "Axioms:":
-                m = re.match(r"^([A-Za-z_][A-Za-z_0-9.']*)\s*:", lines[i])
+            while i < len(lines) and lines[i].strip() and not lines[i].startswith("Closed") and lines[i].strip() != "Axioms:" and not lines[i].startswith("File "):
+                m = re.match(r"^([A-Za-z_][A-Za-z_0-9.']*)\s*(:|$)", lines[i])
                 if m and m.group(1) not in axioms:
                     axioms.append(m.group(1))
                 i += 1
